@@ -38,6 +38,32 @@ def sanitizeTD (td : String) : String := String.ofList (td.toList.map (fun c => 
 /-- `genSpiffeURI` -/
 def spiffeURI (td ns sa : String) : String := "spiffe://" ++ sanitizeTD td ++ "/ns/" ++ ns ++ "/sa/" ++ sa
 
+/-! ## Bearer token extraction (`security.ExtractBearerToken` / `ExtractRequestToken`) -/
+
+/-- gRPC request (the CA service) or plain HTTP request (istiod's debug endpoints) -/
+inductive Transport
+  | grpc | http
+  deriving DecidableEq, Repr
+
+/-- `strings.CutPrefix` -/
+def cutPrefix (p s : String) : Option String :=
+  if hasPrefix s p then some (String.ofList (s.toList.drop p.toList.length)) else none
+
+/-- the token presented in the `authorization` values: gRPC takes the first value with the
+    `Bearer ` prefix; HTTP looks at the first value only and also accepts the `Istio ` prefix -/
+def extractToken (t : Transport) (vals : List String) : Option String :=
+  match t with
+  | .grpc => vals.findSome? (cutPrefix "Bearer ")
+  | .http =>
+    match vals.head? with
+    | none => none
+    | some v =>
+      if v = "" then none
+      else
+        match cutPrefix "Bearer " v with
+        | some tok => some tok
+        | none => cutPrefix "Istio " v
+
 /-! ## OIDC (`oidc.go`) -/
 
 /-- what the OIDC verifier made of the bearer token -/
@@ -69,6 +95,13 @@ def oidcAuthenticate (fixed : Bool) (td : String) (expected : List String) : Oid
   | .rejected => .err
   | .badClaims => .err
   | .claims sub aud => oidcClaims fixed td expected sub aud
+
+/-- `Authenticate` entry: token extraction first; `verdict` is what the verifier makes of the token. -/
+def oidcEntry (fixed : Bool) (td : String) (expected : List String) (t : Transport) (authVals : List String)
+    (verdict : OidcTok) : AuthRes :=
+  match extractToken t authVals with
+  | none => .err
+  | some _ => oidcAuthenticate fixed td expected verdict
 
 /-- The code as it is in /repo now. -/
 def repoOidcFixed : Bool := true
@@ -128,26 +161,38 @@ def getKubeClient (cfg : KubeCfg) (clusterID : String) : Option Client :=
       else if rs.contains (aliasOf cfg clusterID) then some (.remote (aliasOf cfg clusterID))
       else none
 
-/-- `ExtractClusterID` on the metadata values -/
-def clusterIDOf : Option (List String) → String
-  | some [x] => x
-  | _ => ""
+/-- `ExtractClusterID` on the gRPC metadata values (exactly one value, else ""); for HTTP
+    `req.Header.Get("clusterid")` (the first value) -/
+def clusterIDOf (t : Transport) (vals : Option (List String)) : String :=
+  match t, vals with
+  | .grpc, some [x] => x
+  | .http, some (x :: _) => x
+  | _, _ => ""
 
-/-- `KubeJWTAuthenticator.Authenticate` for a gRPC request: the result and the cluster whose API
-    server reviewed the token. -/
-def kubeAuthenticate (td : String) (cfg : KubeCfg) (clusterHdr : Option (List String)) (bearer : Bool)
-    (r : Review) : AuthRes × Option Client :=
-  if !bearer then (.err, none)
-  else
-    match getKubeClient cfg (clusterIDOf clusterHdr) with
+/-- the TokenReview submitted to an API server -/
+structure ReviewCall where
+  client    : Client
+  token     : String
+  audiences : List String
+  deriving DecidableEq, Repr
+
+/-- `KubeJWTAuthenticator.Authenticate`: the result and the TokenReview that was submitted (which
+    cluster, which token, which audiences = `security.TokenAudiences`). -/
+def kubeAuthenticate (t : Transport) (td : String) (cfg : KubeCfg) (clusterHdr : Option (List String))
+    (authVals : List String) (tokenAudiences : List String) (r : Review) : AuthRes × Option ReviewCall :=
+  match extractToken t authVals with
+  | none => (.err, none)
+  | some tok =>
+    match getKubeClient cfg (clusterIDOf t clusterHdr) with
     | none => (.err, none)
     | some cl =>
+      let call : ReviewCall := { client := cl, token := tok, audiences := tokenAudiences }
       match tokenReviewResult r with
-      | none => (.err, some cl)
+      | none => (.err, some call)
       | some k =>
-        if k.podSA = "" then (.err, some cl)
-        else if k.podNamespace = "" then (.err, some cl)
-        else (.ok { identities := [spiffeURI td k.podNamespace k.podSA], kube := k }, some cl)
+        if k.podSA = "" then (.err, some call)
+        else if k.podNamespace = "" then (.err, some call)
+        else (.ok { identities := [spiffeURI td k.podNamespace k.podSA], kube := k }, some call)
 
 /-! ## XFCC (`xfcc_authenticator.go`) -/
 
